@@ -2,6 +2,9 @@ import B6.Lemmas.Validate
 import B6.Lemmas.ValidateEdits
 import B6.Lemmas.Validator
 import B6.Lemmas.ValidatorUniq
+import B6.Lemmas.ValidateLink
+import B6.Lemmas.ValidatorWorld
+import B6.Props.C15
 /-!
 # C37 — Every feature in a world is valid
 
@@ -23,7 +26,7 @@ S2's verdicts on a closed loop (valid? counter-clockwise?) are an `Oracle`.
 * `validator_emits_valid`    `compact.Validator` emits only valid paths and areas over emitted loops, in any order
 -/
 namespace B6.Props.C37
-open B6.Model.Validate B6.Lemmas.Validate B6.Lemmas.ValidateEdits B6.Lemmas.Validator B6.Lemmas.ValidatorUniq
+open B6.Model.Validate B6.Lemmas.Validate B6.Lemmas.ValidateEdits B6.Lemmas.Validator B6.Lemmas.ValidatorUniq B6.Lemmas.ValidateLink B6.Lemmas.ValidatorWorld
 
 theorem validatePath_ok {O : Oracle} {w : World} {refs : List Id} (h : validatePath O w refs = .ok) :
     2 ≤ refs.length ∧ ∃ slots, pathSlots w refs = some slots ∧
@@ -287,6 +290,28 @@ theorem overlay_edits_preserve_valid_partial (O : Oracle) (w w' : World) (f : Fe
   simp only [allValid, List.all_eq_true] at hv ⊢
   exact edits_valid_with O w w' f R hu hv hk hfid hcl h
 
+/-- **overlay_edits_preserve_valid.** The two skeletons composed. Take a `MutableOverlayWorld` (C15's model)
+after ANY history `ops` of `AddFeature` / `Snapshot` over a base with distinct IDs, and let `w` be a
+validation-skeleton view of its current features (`hview`: same features, references = `refsOf`). The
+referrers `R` that its `FindReferences(f.id)` returns are — by C15 `overlay_history_query` — exactly the
+transitive referrers, so re-validating them suffices: an accepted `AddFeature(f)` keeps every feature
+of the layered world valid. No hypothesis about the referrer set is left. -/
+theorem overlay_edits_preserve_valid (O : Oracle) (base : List B6.Model.RefIndex.Feature)
+    (hb : (base.map (·.id)).Nodup) (ops : List B6.Lemmas.RefWorld.OOp)
+    (w w' : World) (f : Feat) (hu : Uniq w) (hv : allValid O w = true)
+    (hk : ∀ g ∈ w, g.id = f.id → sameCtor g f = true) (hfid : f.id.1 ≠ 9) :
+    ∃ o R, B6.Lemmas.RefWorld.runOOps ⟨base, [], []⟩ ops = some o ∧ o.find f.id [] = some R ∧
+      ((∀ g, g ∈ o.merged ↔ g ∈ view w) → addFeatureWith O w f R = .ok w' → allValid O w' = true) := by
+  obtain ⟨o, R, ho, hR, _, hspec⟩ := B6.Props.C15.overlay_history_query base hb ops f.id []
+  refine ⟨o, R, ho, hR, ?_⟩
+  intro hview h
+  have hcl : closedSet w f.id R = true := by
+    apply closed_of_reach
+    intro s
+    rw [hspec s, reach_congr hview]
+    simp [B6.Model.RefIndex.typeOk]
+  exact overlay_edits_preserve_valid_partial O w w' f R hu hv hk hfid hcl h
+
 /-- non-vacuity: moving point 2 under a closed path and its area is accepted and keeps the world valid -/
 def editW : World := [pt 1 1, pt 2 2, pt 3 3, ⟨(1, 10), .path [(0, 1), (0, 2), (0, 3), (0, 1)]⟩, ⟨(2, 20), .area [[(1, 10)]]⟩]
 example : Uniq editW ∧ allValid niceOracle editW = true ∧ referrers editW (0, 2) = some [(1, 10), (2, 20)] ∧
@@ -317,6 +342,18 @@ leaves the queue when it is emitted; a path is emitted by its own `ValidatePath`
 theorem validator_emits_once (O : Oracle) (pts : World) (src : List Feat) (hu : (src.map (·.id)).Nodup) :
     ((Validator.run O ⟨pts, [], []⟩ src).2.map (·.id)).Nodup :=
   run_nodup O pts src hu
+
+/-- **compact_world_valid.** `validator_emits_valid` and `validator_emits_once` composed: the world a compact
+build ends up with — the point features `pts` plus everything the validator emitted from the stream
+`src` of paths, areas and relations (any order; IDs of `pts ++ src` distinct) — has distinct IDs, and
+every feature it yields is `valid` IN THAT WORLD (same inversion contract). -/
+theorem compact_world_valid (O : Oracle) (pts src : List Feat)
+    (hpts : ∀ p ∈ pts, ∃ l, p.geo = .point l) (hsrc : ∀ f ∈ src, ∀ l, f.geo ≠ .point l)
+    (hu : Uniq (pts ++ src)) (hc : ∀ f ∈ src, featContract O pts f) :
+    Uniq (pts ++ (Validator.run O ⟨pts, [], []⟩ src).2) ∧
+    allValid O (pts ++ (Validator.run O ⟨pts, [], []⟩ src).2) = true := by
+  obtain ⟨h1, h2⟩ := validator_world_valid O pts src hpts hsrc hu hc
+  exact ⟨h1, by simp only [allValid, List.all_eq_true]; exact h2⟩
 
 /-- non-vacuity: an area fed before its path is emitted once the path has been seen -/
 example : (Validator.run niceOracle ⟨[pt 1 1, pt 2 2, pt 3 3], [], []⟩
